@@ -1,5 +1,5 @@
 from contextlib import contextmanager
-from typing import Optional, ContextManager, Iterator, TextIO
+from typing import Optional, ContextManager, Iterator, TextIO, List
 
 from exactly_lib.impls.types.string_source.contents.contents_with_cached_path import \
     ContentsWithCachedPathFromWriteToBase
@@ -27,7 +27,7 @@ class ContentsOfStr(ContentsWithCachedPathFromWriteToBase):
     @property
     @contextmanager
     def as_lines(self) -> ContextManager[Iterator[str]]:
-        yield iter(self._contents.splitlines(keepends=True))
+        yield iter(lines_of(self._contents))
 
     def write_to(self, output: TextIO):
         output.write(self._contents)
@@ -35,3 +35,12 @@ class ContentsOfStr(ContentsWithCachedPathFromWriteToBase):
     @property
     def tmp_file_space(self) -> DirFileSpace:
         return self._tmp_file_space
+
+
+def lines_of(s: str) -> List[str]:
+    """Lines of s, separated by new-line only (in contrast to str.splitlines), new-lines included."""
+    lines = s.split('\n')
+    ret_val = [line + '\n' for line in lines[:-1]]
+    if lines[-1]:
+        ret_val.append(lines[-1])
+    return ret_val
